@@ -24,7 +24,8 @@ PLAN = {
     "C05": {"quick": ["struct3", "struct4s", "struct5s"], "thorough": ["struct3", "struct4s", "struct5s", "struct4", "seg13"]},
     "C06": {"quick": ["struct3", "struct4s", "struct5s"], "thorough": ["struct3", "struct4s", "struct5s", "struct4", "seg13"]},
     "C07": {"quick": ["seg13", "seg3d", "seg6s"], "thorough": ["seg13", "seg22", "seg3d", "seg13n", "seg6s"]},
-    "C08": {"quick": ["seg13", "seg3d", "feat13", "feat3d"], "thorough": ["seg13", "seg22", "seg3d", "seg13n", "feat13", "feat22", "feat3d"]},
+    "C08": {"quick": ["seg13", "seg3d", "feat13", "feat3d", "feat333"],
+            "thorough": ["seg13", "seg22", "seg3d", "seg13n", "feat13", "feat22", "feat3d", "feat333"]},
     # seg13z: tracks rebuilt from the graph, IoU enabled in bulk at that point; feat13: enable / disable at any point
     "C09": {"quick": ["seg13", "seg3d", "seg13z", "feat13", "seg5s"], "thorough": ["seg13", "seg22", "seg3d", "seg13n", "seg13z", "feat13", "feat22", "seg5s"]},
     "C10": {"quick": ["featns", "feat13", "seg5s"], "thorough": ["featns", "feat13", "feat22", "seg5s"]},
